@@ -64,7 +64,7 @@ def check_c10(res, tier, replay):
     rng = random.Random(vlib.seed() + 10)
     vlib.apply_obligations(res, 'C10')
     findings = load_findings('C10')
-    nh = 60 if tier == 'quick' else 600
+    nh = 60 if tier == 'quick' else 2000
     hl = 40 if tier == 'quick' else 200
     hist = []
     if replay:
@@ -164,7 +164,7 @@ def py_csvfile(ops):
 def check_c11(res, tier, replay):
     rng = random.Random(vlib.seed() + 11)
     vlib.apply_obligations(res, 'C11')
-    nrt = 60 if tier == 'quick' else 600
+    nrt = 60 if tier == 'quick' else 2000
     lines, kinds = [], []
     if replay:
         rep = json.load(open(replay))
@@ -296,7 +296,7 @@ def py_sync(defday, assets, fail_src, fail_tgt, runs, src_spec, tgt_spec):
 def check_c12(res, tier, replay):
     rng = random.Random(vlib.seed() + 12)
     vlib.apply_obligations(res, 'C12')
-    n = 150 if tier == 'quick' else 1500
+    n = 150 if tier == 'quick' else 4000
     names = ['a', 'b', 'c', 'd', 'e']
     cases = []
     if replay:
@@ -355,7 +355,7 @@ def check_c12(res, tier, replay):
 def check_c13(res, tier, replay):
     rng = random.Random(vlib.seed() + 13)
     vlib.apply_obligations(res, 'C13')
-    n = 40 if tier == 'quick' else 300
+    n = 40 if tier == 'quick' else 900
     cases = []
     strat_pool = ['bh', 'macd', 'rsi', 'trix', 'bop', 'vwma', 'at1', 'at2', 'at3', 'at5']
     if replay:
@@ -448,7 +448,7 @@ def gen_csv_doc(rng, header):
 def check_c19(res, tier, replay):
     rng = random.Random(vlib.seed() + 19)
     vlib.apply_obligations(res, 'C19')
-    n = 400 if tier == 'quick' else 4000
+    n = 400 if tier == 'quick' else 12000
     lines = []
     if replay:
         lines = ['m%d %s' % (i, l) for i, l in enumerate(json.load(open(replay)).get('lines', []))]
